@@ -160,10 +160,11 @@ Definition proj (id : nat) (o : mop) : list aop :=
      p       time of the source's previous event (None = no entry)
      silent  rounds since the source's last IsSpam call
      thr     the source's threshold, once an event showed it
+     f       a call of the source was flagged since the previous round
    [strong] = the property's wording (at least T events since the previous round);
    not strong = the residual-aware statement r + q >= T that is a theorem of the model.        *)
-Record mon := { m_r : Z; m_q : Z; m_p : option Z; m_silent : Z; m_thr : option Z; m_mixed : bool }.
-Definition mon0 : mon := {| m_r := 0; m_q := 0; m_p := None; m_silent := 0; m_thr := None; m_mixed := false |}.
+Record mon := { m_r : Z; m_q : Z; m_p : option Z; m_silent : Z; m_thr : option Z; m_mixed : bool; m_f : bool }.
+Definition mon0 : mon := {| m_r := 0; m_q := 0; m_p := None; m_silent := 0; m_thr := None; m_mixed := false; m_f := false |}.
 
 Inductive item :=
 | IE (d : decision) (isNew : bool) (t : Z) (flag : bool)
@@ -180,18 +181,24 @@ Definition mon_step (strong : bool) (MI U : Z) (m : mon) (i : item) : mon * bool
       let prev := match m_p m with Some q => q | None => t end in
       let mixed := m_mixed m || match m_thr m with Some T0 => negb (T0 =? T) | None => false end in
       if isNew then
-        ({| m_r := m_r m; m_q := m_q m; m_p := Some prev; m_silent := 0; m_thr := Some T; m_mixed := mixed |},
+        ({| m_r := m_r m; m_q := m_q m; m_p := Some prev; m_silent := 0; m_thr := Some T; m_mixed := mixed; m_f := m_f m || flag |},
          mixed || negb flag || (T <=? m_r m) || (T <=? (if strong then 0 else m_r m) + m_q m))
       else
         let q' := m_q m + (if (t - prev) <? MI then 1 else 0) in
-        ({| m_r := m_r m; m_q := q'; m_p := Some t; m_silent := 0; m_thr := Some T; m_mixed := mixed |},
+        ({| m_r := m_r m; m_q := q'; m_p := Some t; m_silent := 0; m_thr := Some T; m_mixed := mixed; m_f := m_f m || flag |},
          mixed || negb flag || (T <=? m_r m) || (T <=? (if strong then 0 else m_r m) + q'))
   | IM c =>
       let sil := m_silent m + 1 in
       ({| m_r := Z.max c 0; m_q := 0; m_p := if c =? -1 then None else m_p m; m_silent := sil;
-          m_thr := m_thr m; m_mixed := m_mixed m |},
+          m_thr := m_thr m; m_mixed := m_mixed m; m_f := false |},
        match m_thr m with
-       | Some T => if U + 1 <=? sil then c <=? 0 else true
+       | Some T =>
+           (if U + 1 <=? sil then c <=? 0 else true) &&
+           (* decay: a round subtracts the source's own threshold.  Since the previous round the counter rose by at
+              most one per quick call from what that round left (or, if a call was flagged in between, from the ban
+              value U*T), so what THIS round leaves is at most that minus T — a larger residue re-bans the source
+              after fewer than T events *)
+           (m_mixed m || (c <=? Z.max 0 ((if m_f m then Z.max (m_r m) (U * T) else m_r m) + m_q m - T)))
        | None => true
        end)
   end.
